@@ -55,7 +55,7 @@ func replay(c *core.Ctx, raw json.RawMessage) error {
 	return nil
 }
 
-const shardSize = 6
+const shardSize = 8
 
 // ---------------------------------------------------------------- types
 
@@ -1258,8 +1258,13 @@ func run(c *core.Ctx) {
 		c.Note("compared with the model: all of the above except the pair tables of Compare, Less, Coal and the Clamp triples (Clamp: every v against 13x13 boundary (lo,hi))")
 	}
 	// 2. boundary-dense and random samples of every type
-	n := c.N(400, 2000, 3000)
+	n0 := c.N(400, 2000, 3000)
 	for _, t := range typeList {
+		n := n0
+		switch t.name { // same model instance as int64/uint64/int8/uint16: fewer samples
+		case "int", "uint", "uintptr", "named8", "namedu16":
+			n = n0 / 4
+		}
 		switch t.kind {
 		case 'i':
 			bnd := boundary(t)
